@@ -614,6 +614,8 @@ def _range(interp, args, kwargs, node):
 def _enumerate(interp, args, kwargs, node):
     start = kwargs.get("start", args[1] if len(args) > 1 else Const(0))
     segs = interp.segments(args[0], node)
+    src = interp.deref(args[0]) if isinstance(args[0], Ref) else None
+    resorted = getattr(src, "sorted_by", None)
     out = []
     n = 0
     for s in segs:
@@ -623,7 +625,9 @@ def _enumerate(interp, args, kwargs, node):
             n += 1
         elif s[0] == "each":
             sl = interp.as_lin(start)
-            pos = LinV(F.lin_add(F.lin_term(("pos", s[1], s[2])), F.lin_add(sl.lin, F.lin_const(n)) if sl else F.lin_const(n)))
+            # the position of an element in a re-sorted sequence is not its position in the family it came from
+            posfam = s[2] if resorted is None else ("sorted", s[2], resorted)
+            pos = LinV(F.lin_add(F.lin_term(("pos", s[1], posfam)), F.lin_add(sl.lin, F.lin_const(n)) if sl else F.lin_const(n)))
             out.append(("each", s[1], s[2], s[3], TupleV((pos, s[4]))))
             n = n  # positions after a symbolic segment are relative to it as well
         else:
@@ -1472,7 +1476,7 @@ def opaque_method(interp, ref, o: HOpaque, name, args, kwargs, node):
             n = interp.fresh_id("m")
             o.attrs["last_model"] = Const(n)
             interp.log("rc2.compute", node, obj=ref, mid=n, added=tuple(o.log))
-            return ElemV(("rc2model", n), "optional")
+            return ElemV(("rc2model", n), "optional", "list")
         if name == "add_clause":
             it = clause_item(interp, args[0], node)
             o.log.append(("clause", it, args[0]))
